@@ -244,7 +244,7 @@ class RunResult:
         self.late_events = []     # trace events produced by letting the loop run on
 
 
-def run(b, external_cancel_at=None, settle=50.0):
+def run(b, external_cancel_at=None, settle=50.0, again=False, on_second_run=lambda: None):
     """run the top scheduler on the virtual loop; then let the loop run on for `settle` virtual
     seconds to observe late activity (C11)."""
     loop = b.loop
@@ -258,14 +258,26 @@ def run(b, external_cancel_at=None, settle=50.0):
             if external_cancel_at is not None:
                 loop.call_at(external_cancel_at, t.cancel)
             return await t
-        try:
-            rr.verdict = loop.run_until_complete(main())
-        except Hang as h:
-            rr.hang = str(h)
-        except asyncio.CancelledError as exc:
-            rr.exc = exc
-        except Exception as exc:
-            rr.exc = exc
+        def one_run():
+            rr.verdict, rr.exc, rr.hang = None, None, None
+            try:
+                rr.verdict = loop.run_until_complete(main())
+            except Hang as h:
+                rr.hang = str(h)
+            except asyncio.CancelledError as exc:
+                rr.exc = exc
+            except Exception as exc:
+                rr.exc = exc
+        one_run()
+        if again and rr.hang is None and not [t for t in asyncio.all_tasks(loop) if not t.done()]:
+            # "any run of any scheduler": the same tree run a second time (PureScheduler._reset_tasks exists
+            # for that); the oracles then judge the second run only
+            try:
+                loop.run_until_complete(asyncio.sleep(5))
+            except Hang:
+                pass
+            on_second_run()
+            one_run()
         rr.end_vt = loop.time()
         n0 = len(b.trace.events)
         rr.leftover = [t for t in asyncio.all_tasks(loop) if not t.done()] if rr.hang is None else []
